@@ -1,13 +1,15 @@
 /-
 C02 / C03 — the message level with EDNS (stage 2).
 
-The option-less OPT record that `emit_message_parts` appends after the additional section with its
-own `emit_iter` (`Record::from(&Edns)`, `rcode_high` taken from the header's response code):
+The OPT record that `emit_message_parts` appends after the additional section with its own
+`emit_iter` (`Record::from(&Edns)`, `rcode_high` taken from the header's response code), with
+options of unknown codes (≠ 3, 5, 8) and NSID (`OptOK`; the DAU and client-subnet options, which the
+decoder normalises, are NOT covered): `emits_optEntries` / `parseOpt_optBytes` (the option list),
 `emits_optRecord` / `reads_optRecord` / `ednsFrom_optRecord` (`Edns::from(&Record)` inverts it),
 `optSection_any` (written, or dropped and rolled back), `readRecords_optStep`, and
 
-* `emitMessage_reads_edns` : for every message satisfying `MsgWFE` (as `MsgWF`, plus an option-less
-  `Edns` and any 12-bit response code) and every size limit: what `Message::emit` writes is read back
+* `emitMessage_reads_edns` : for every message satisfying `MsgWFE` (as `MsgWF`, plus such an `Edns`
+  and any 12-bit response code) and every size limit: what `Message::emit` writes is read back
   by the decoder model, to the last octet, as `truncatedW m w` — the sections cut to the records
   written, the OPT record present iff it was written, `TC = tc ∨ dropped` (the OPT record counts),
   the extended response code intact iff the OPT record is;
@@ -17,45 +19,150 @@ import HickoryVerif.Proofs.C02Full
 namespace HickoryVerif.C02
 open HickoryVerif HickoryVerif.Name HickoryVerif.Wire HickoryVerif.C03
 
-/-! ### EDNS: the option-less OPT record appended after the additional section -/
+/-! ### EDNS: the OPT record appended after the additional section -/
 
-/-- an `Edns` the round-trip proof covers: no options, fields in range -/
+/-- the octets of an option's value -/
+def optValBytes : OptVal → Bytes
+  | .unknown _ d => d
+  | .nsid d => d
+  | _ => []
+
+/-- the RDATA octets of an OPT record -/
+def optBytes (os : List OptEntry) : Bytes :=
+  (os.map fun o => u16b o.code ++ u16b (optValLen o.val) ++ optValBytes o.val).flatten
+
+/-- an option the proof covers: an unknown-code option (not DAU / client-subnet / NSID codes) or NSID -/
+def OptOK (o : OptEntry) : Prop :=
+  o.code < 65536 ∧ (optValBytes o.val).length < 65536 ∧
+  ((∃ d, o.val = .unknown o.code d ∧ o.code ≠ 3 ∧ o.code ≠ 5 ∧ o.code ≠ 8) ∨ (∃ d, o.val = .nsid d ∧ o.code = 3))
+
+theorem mkOpt_ok (o : OptEntry) (h : OptOK o) : mkOpt o.code (optValBytes o.val) = .ok o := by
+  obtain ⟨h1, h2, h3⟩ := h
+  obtain ⟨code, val⟩ := o
+  rcases h3 with ⟨d, hv, n3, n5, n8⟩ | ⟨d, hv, hc⟩
+  · simp only at hv n3 n5 n8; subst hv
+    simp [mkOpt, optValBytes, n3, n5, n8]
+  · simp only at hv hc; subst hv; subst hc
+    simp only [optValBytes] at h2
+    simp [mkOpt, optValBytes]; omega
+
+theorem optValLen_ok (o : OptEntry) (h : OptOK o) : optValLen o.val = (optValBytes o.val).length := by
+  obtain ⟨h1, h2, h3⟩ := h
+  rcases h3 with ⟨d, hv, _⟩ | ⟨d, hv, _⟩ <;> rw [hv] at h2 ⊢ <;> simp only [optValBytes, optValLen] at h2 ⊢ <;> omega
+
+theorem parseOpt_optBytes (total : Nat) : ∀ (os : List OptEntry) (acc : List OptEntry),
+    (∀ o ∈ os, OptOK o) → (∀ o ∈ os, (optValBytes o.val).length ≤ total) →
+    (parseOpt total (optBytes os) acc).1 = .ok (acc.reverse ++ os)
+  | [], acc, _, _ => by simp [optBytes, parseOpt]
+  | o :: os, acc, hok, hlen => by
+    have ho := hok o (by simp)
+    have hl := hlen o (by simp)
+    have hvl := optValLen_ok o ho
+    have hc := ho.1
+    have hd := ho.2.1
+    have ih := parseOpt_optBytes total os (o :: acc) (fun x hx => hok x (by simp [hx]))
+      (fun x hx => hlen x (by simp [hx]))
+    have hb : optBytes (o :: os) = o.code / 256 % 256 :: o.code % 256 ::
+        (optValBytes o.val).length / 256 % 256 :: (optValBytes o.val).length % 256 ::
+        (optValBytes o.val ++ optBytes os) := by
+      simp [optBytes, u16b, hvl]
+    rw [hb, parseOpt]
+    have e1 := u16_split o.code hc
+    have e2 := u16_split (optValBytes o.val).length hd
+    simp only [e1, e2]
+    rw [if_neg (by omega)]
+    by_cases hz : (optValBytes o.val).length = 0
+    · have hnil : optValBytes o.val = [] := List.eq_nil_of_length_eq_zero hz
+      have hm := mkOpt_ok o ho
+      rw [hnil] at hm
+      simp only [hm, hnil, List.nil_append, List.length_nil, ↓reduceIte]
+      simpa [List.reverse_cons, List.append_assoc] using ih
+    · simp only [hz, ↓reduceIte]
+      have hlt : ¬ (optValBytes o.val ++ optBytes os).length < (optValBytes o.val).length := by simp
+      simp only [hlt, ↓reduceDIte, List.take_left, List.drop_left, mkOpt_ok o ho]
+      simpa [List.reverse_cons, List.append_assoc] using ih
+
+theorem emits_optVal (o : OptEntry) (h : OptOK o) : Emits (emitOptVal o.val) (laySeg (optValBytes o.val)) := by
+  rcases h.2.2 with ⟨d, hv, _⟩ | ⟨d, hv, _⟩ <;> rw [hv] <;> exact emits_emitSlice d
+
+theorem emits_optEntries : ∀ (os : List OptEntry), (∀ o ∈ os, OptOK o) →
+    Emits (emitOptEntries os) (laySeg (optBytes os))
+  | [], _ => by simpa [emitOptEntries, seqAll, optBytes] using emits_nothing_seg
+  | o :: os, h => by
+    have ho := h o (by simp)
+    have ih := emits_optEntries os (fun x hx => h x (by simp [hx]))
+    unfold emitOptEntries at ih ⊢
+    simp only [List.map_cons, seqAll]
+    have h1 := emits_seg_seq (emits_emitU16 o.code) (emits_seg_seq (emits_emitU16 (optValLen o.val))
+      (emits_seg_seq (emits_optVal o ho) emits_nothing_seg))
+    have := emits_seg_seq h1 ih
+    have hb : optBytes (o :: os) = (u16b o.code ++ (u16b (optValLen o.val) ++ (optValBytes o.val ++ []))) ++
+        (List.map (fun o => u16b o.code ++ u16b (optValLen o.val) ++ optValBytes o.val) os).flatten := by
+      simp [optBytes, List.append_assoc]
+    rw [hb]
+    exact this
+
+theorem modeKeeper_optEntries (os : List OptEntry) (h : ∀ o ∈ os, OptOK o) : ModeKeeper (emitOptEntries os) := by
+  unfold emitOptEntries
+  refine modeKeeper_seqAll _ ?_
+  intro f hf
+  simp only [List.mem_map] at hf
+  obtain ⟨o, ho, rfl⟩ := hf
+  refine modeKeeper_seqAll _ ?_
+  intro g hg
+  simp only [List.mem_cons, List.not_mem_nil, or_false] at hg
+  rcases hg with rfl | rfl | rfl
+  · exact modeKeeper_emitU16 _
+  · exact modeKeeper_emitU16 _
+  · rcases (h o ho).2.2 with ⟨d, hv, _⟩ | ⟨d, hv, _⟩ <;> rw [hv] <;> exact modeKeeper_emitSlice d
+
+theorem optBytes_len_le (os : List OptEntry) : ∀ o ∈ os, (optValBytes o.val).length ≤ (optBytes os).length := by
+  induction os with
+  | nil => intro o ho; cases ho
+  | cons x xs ih =>
+    intro o ho
+    simp only [optBytes, List.map_cons, List.flatten_cons, List.length_append] at *
+    rcases List.mem_cons.1 ho with rfl | ho
+    · omega
+    · have := ih o ho; omega
+
+/-- an `Edns` the round-trip proof covers: options of unknown codes and NSID, fields in range -/
 structure EdnsWF (ed : Edns) : Prop where
-  opts : ed.options = []
+  opts : ∀ o ∈ ed.options, OptOK o
   high : ed.rcodeHigh < 256
   version : ed.version < 256
   z : ed.z < 32768
   payload : ed.maxPayload < 65536
   payloadMin : 512 ≤ ed.maxPayload
 
-/-- the layout of the option-less OPT record -/
+/-- the layout of the OPT record -/
 def layOpt (ed : Edns) : Lay :=
   laySeq (layName []) (laySeq (laySeg (u16b T_OPT)) (laySeq (laySeg (u16b (recordOfEdns ed).cls))
-    (laySeq (laySeg (u32b (recordOfEdns ed).ttl)) (laySeq (layLen layEmpty) layEmpty))))
+    (laySeq (laySeg (u32b (recordOfEdns ed).ttl)) (laySeq (layLen (laySeg (optBytes ed.options))) layEmpty))))
 
 theorem isLayout_opt (ed : Edns) : IsLayout (layOpt ed) :=
   isLayout_seq (isLayout_name _) (isLayout_seq (isLayout_seg _) (isLayout_seq (isLayout_seg _)
-    (isLayout_seq (isLayout_seg _) (isLayout_seq (isLayout_len isLayout_empty) isLayout_empty))))
+    (isLayout_seq (isLayout_seg _) (isLayout_seq (isLayout_len (isLayout_seg _)) isLayout_empty))))
 
 theorem root_wf : Name.root.WF := by decide
 
 theorem emits_optRecord (ed : Edns) (hwf : EdnsWF ed) : Emits (emitRecord (recordOfEdns ed)) (layOpt ed) := by
   unfold emitRecord layOpt
-  have hd : (recordOfEdns ed).rdata = .opt [] := by simp [recordOfEdns, hwf.opts]
+  have hd : (recordOfEdns ed).rdata = .opt ed.options := rfl
   have hn : (recordOfEdns ed).name = Name.root := rfl
   have ht : (recordOfEdns ed).rtype = T_OPT := rfl
   rw [hd, hn, ht]
   refine emits_seqAll5 (isLayout_name _) (isLayout_seg _) (isLayout_seg _) (isLayout_seg _)
-    (isLayout_len isLayout_empty) (emits_emitName _ root_wf) (emits_emitU16 _) (emits_emitU16 _)
+    (isLayout_len (isLayout_seg _)) (emits_emitName _ root_wf) (emits_emitU16 _) (emits_emitU16 _)
     (emits_emitU32 _) ?_
   simp only [RData.isUpdate, Bool.false_eq_true, ↓reduceIte]
-  refine emits_lenPrefixed isLayout_empty ?_
+  refine emits_lenPrefixed (isLayout_seg _) ?_
   unfold emitRData
-  exact emits_withRdataBehavior (by unfold emitOptEntries; exact emits_nothing) _
+  exact emits_withRdataBehavior (emits_optEntries _ hwf.opts) _
 
 theorem modeKeeper_optRecord (ed : Edns) (hwf : EdnsWF ed) : ModeKeeper (emitRecord (recordOfEdns ed)) := by
   unfold emitRecord
-  have hd : (recordOfEdns ed).rdata = .opt [] := by simp [recordOfEdns, hwf.opts]
+  have hd : (recordOfEdns ed).rdata = .opt ed.options := rfl
   rw [hd]
   refine modeKeeper_seqAll _ ?_
   intro f hf
@@ -68,12 +175,12 @@ theorem modeKeeper_optRecord (ed : Edns) (hwf : EdnsWF ed) : ModeKeeper (emitRec
   · refine modeKeeper_lenPrefixed ?_
     simp only [RData.isUpdate, Bool.false_eq_true, ↓reduceIte]
     unfold emitRData
-    exact modeKeeper_withRdataBehavior (by unfold emitOptEntries; exact modeKeeper_nothing) _
+    exact modeKeeper_withRdataBehavior (modeKeeper_optEntries _ hwf.opts) _
 
 /-- the OPT record as the decoder returns it (RDLENGTH 0 is read as `Update0`) -/
 def optRecordRead (ed : Edns) : Record :=
   { name := { labels := [], fqdn := true }, rtype := T_OPT, cls := (recordOfEdns ed).cls,
-    ttl := (recordOfEdns ed).ttl, rdata := .update0 T_OPT }
+    ttl := (recordOfEdns ed).ttl, rdata := if ed.options = [] then .update0 T_OPT else .opt ed.options }
 
 theorem optTtl_lt (ed : Edns) (hwf : EdnsWF ed) : (recordOfEdns ed).ttl < 4294967296 := by
   have h1 := hwf.high; have h2 := hwf.version; have h3 := hwf.z
@@ -85,9 +192,7 @@ theorem reads_optRecord {H : Nat × Nat → Prop} {opq : Nat → Rd Bytes} {buf 
   obtain ⟨m1, l1, m2, l2, m3, l3, m4, l4, m5, l5, l6⟩ := hl
   obtain ⟨rfl, _⟩ := l6
   obtain ⟨len, hlen, hseg, hbody, rfl⟩ := l5
-  obtain ⟨h0, _⟩ := hbody
-  have hl0 : len = 0 := by omega
-  subst hl0
+  obtain ⟨hbseg, hbq⟩ := hbody
   have hcls16 : (recordOfEdns ed).cls < 65536 := by
     have := hwf.payload; simp only [recordOfEdns]; omega
   unfold readRecord
@@ -103,12 +208,44 @@ theorem reads_optRecord {H : Nat × Nat → Prop} {opq : Nat → Rd Bytes} {buf 
     simp only [recordOfEdns]; omega
   refine Reads.bind hcls ?_
   refine Reads.bind (reads_u32_of_seg l4 (optTtl_lt ed hwf)) ?_
-  have hl16 : laySeg (u16b 0) H buf m4 (m4 + 2) := ⟨hseg, rfl⟩
+  have hl16 : laySeg (u16b len) H buf m4 (m4 + 2) := ⟨hseg, rfl⟩
   refine Reads.bind (reads_u16_of_seg hl16 (by omega)) ?_
   refine Reads.bind (Reads.remaining buf (m4 + 2)) ?_
-  rw [if_neg (by omega), if_pos rfl]
-  simp only [Nat.add_zero]
-  exact Reads.pure' _ _ rfl
+  have hlenb : len = (optBytes ed.options).length := by omega
+  have hin := hbseg.1
+  by_cases hos : ed.options = []
+  · have hl0 : len = 0 := by rw [hlenb, hos]; rfl
+    subst hl0
+    rw [if_neg (by omega), if_pos rfl]
+    simp only [Nat.add_zero]
+    refine Reads.pure' _ _ ?_
+    simp [optRecordRead, hos]
+  · have hpos : 0 < len := by
+      rw [hlenb]
+      cases hoo : ed.options with
+      | nil => exact absurd hoo hos
+      | cons x xs => simp [optBytes, u16b]
+    rw [if_neg (by omega), if_neg (by omega)]
+    -- the clamped decoder
+    have hseg' : SegAt (buf.take (m4 + 2 + len)) (m4 + 2) (optBytes ed.options) :=
+      segAt_congr hbseg (by simp only [List.length_take]; omega)
+        (fun i _ hi2 => by rw [List.getElem?_take, if_pos (by omega)])
+    have hend : (buf.take (m4 + 2 + len)).length = m4 + 2 + len := by
+      simp only [List.length_take]; omega
+    have hbodyR : Reads (readRDataBody opq T_OPT) (buf.take (m4 + 2 + len)) (m4 + 2) (.opt ed.options)
+        (buf.take (m4 + 2 + len)).length := by
+      simp only [readRDataBody, T_OPT, Nat.reduceEqDiff, ↓reduceIte, or_self]
+      refine Reads.bind (Reads.remaining _ _) ?_
+      refine Reads.bind (Reads.toEnd (a := ed.options) ?_) ?_
+      · rw [drop_of_segAt_end hseg' (by rw [hend]; omega)]
+        have := parseOpt_optBytes ((buf.take (m4 + 2 + len)).length - (m4 + 2)) ed.options [] hwf.opts
+          (by intro o ho; have := optBytes_len_le ed.options o ho; rw [hend]; omega)
+        simpa using this
+      · exact Reads.pure _ _ _
+    have hrd := reads_readRData (opq := opq) (t := T_OPT) (by decide) (by rw [hend]; omega) hbodyR
+    refine Reads.bind (Reads.splitOff (by omega) hrd) ?_
+    refine Reads.pure' _ _ ?_
+    simp [optRecordRead, hos]
 
 /-- `Edns::from(&Record)` inverts `Record::from(&Edns)` -/
 theorem ednsFrom_optRecord (ed : Edns) (hwf : EdnsWF ed) : ednsFrom (optRecordRead ed) = .ok ed := by
@@ -116,10 +253,12 @@ theorem ednsFrom_optRecord (ed : Edns) (hwf : EdnsWF ed) : ednsFrom (optRecordRe
   have h5 := hwf.payloadMin
   obtain ⟨rh, ver, dok, z, mp, os⟩ := ed
   simp only at h1 h2 h3 h4 h5
-  have hos : os = [] := hwf.opts
-  subst hos
-  simp only [ednsFrom, optRecordRead, recordOfEdns, T_OPT, ne_eq, not_true_eq_false, ↓reduceIte]
-  cases dok <;> simp <;> omega
+  by_cases hos : os = []
+  · subst hos
+    simp only [ednsFrom, optRecordRead, recordOfEdns, T_OPT, ne_eq, not_true_eq_false, ↓reduceIte]
+    cases dok <;> simp <;> omega
+  · simp only [ednsFrom, optRecordRead, recordOfEdns, T_OPT, ne_eq, not_true_eq_false, ↓reduceIte, hos]
+    cases dok <;> simp <;> omega
 
 /-- one iteration of `read_records` on a record's layout, whatever follows -/
 theorem readRecords_step {H : Nat × Nat → Prop} {opq : Nat → Rd Bytes} {buf : Bytes} {isAdd : Bool} {op : Nat}
@@ -190,16 +329,23 @@ theorem readRecords_optStep {H : Nat × Nat → Prop} {opq : Nat → Rd Bytes} {
   refine Reads.bind (fun t => ⟨t + 1, rfl⟩ : Reads (Rd.tick) buf p () p) ?_
   refine Reads.bind (reads_optRecord ed hwf l) ?_
   have ht : (optRecordRead ed).rtype = T_OPT := rfl
-  have hd : (optRecordRead ed).rdata = .update0 T_OPT := rfl
   rw [if_neg (by intro hc; exact hc.2.1 ht)]
   simp only [Option.isSome_none, Bool.false_eq_true, ↓reduceIte, Bool.not_true, false_and]
-  rw [hd]
-  simp only [↓reduceIte]
-  refine Reads.bind (fun t => ⟨t, by simp only [Rd.lift, ednsFrom_optRecord ed hwf]⟩ :
-    Reads (Rd.lift (ednsFrom (optRecordRead ed))) buf e ed e) ?_
-  exact Reads.pure _ _ _
+  have hlift : Reads (Rd.lift (ednsFrom (optRecordRead ed))) buf e ed e :=
+    fun t => ⟨t, by simp only [Rd.lift, ednsFrom_optRecord ed hwf]⟩
+  by_cases hos : ed.options = []
+  · have hd : (optRecordRead ed).rdata = .update0 T_OPT := by simp [optRecordRead, hos]
+    rw [hd]
+    simp only [↓reduceIte]
+    refine Reads.bind hlift ?_
+    exact Reads.pure _ _ _
+  · have hd : (optRecordRead ed).rdata = .opt ed.options := by simp [optRecordRead, hos]
+    rw [hd]
+    simp only
+    refine Reads.bind hlift ?_
+    exact Reads.pure _ _ _
 
-/-- `MsgWF` with EDNS allowed: an option-less `Edns` whose `rcode_high` mirrors the header's response
+/-- `MsgWF` with EDNS allowed: an `Edns` (options per `OptOK`) whose `rcode_high` mirrors the header's response
 code (which may then be an extended one) -/
 structure MsgWFE (m : Message) : Prop where
   id : m.md.id < 65536
